@@ -28,7 +28,10 @@ CONFIG = {
 
 PATS = {"*.bak": ["x.bak", "old.bak"], "tmp*": ["tmpA", "tmp_2.bin"], "cache/": ["cache/c1", "cache/deep/c2"],
         "notes": ["notes"], "*.xml": ["sidecar.xml"], "skipdir": ["skipdir/s1.bin"], "pre*": ["prefix.dat"],
-        "z9": ["z9"], "thumbs/": ["thumbs/t.jpg"]}
+        "z9": ["z9"], "thumbs/": ["thumbs/t.jpg"],
+        # patterns with an inner slash are anchored at the root of the history that applies them
+        "P/Q/*.tmp": ["P/Q/render.tmp", "P/Q/later.tmp"], "/R1/R2/x.dat": ["R1/R2/x.dat"], "S/T/": ["S/T/u.bin"],
+        "Q/later.tmp": ["Q/later.tmp"], "P/*/deep.bin": ["P/Q/deep.bin", "P/W/deep.bin"]}
 
 
 def generate(rng, tier):
@@ -39,6 +42,13 @@ def generate(rng, tier):
     for p in pats:
         for victim in PATS[p]:
             parent = rng.choice(dirs)
+            if "/" in p.rstrip("/"):
+                if parent and rng.random() < 0.5:
+                    # a decoy at another depth, which the anchored pattern does not match
+                    for i in range(1, len((parent + "/" + victim).split("/"))):
+                        tree.setdefault("/".join((parent + "/" + victim).split("/")[:i]), {"t": "d"})
+                    tree.setdefault(parent + "/" + victim, {"t": "f", "c": gen.unique_content(rng)})
+                parent = ""
             rel = f"{parent}/{victim}" if parent else victim
             parts = rel.split("/")
             for i in range(1, len(parts)):
@@ -47,7 +57,7 @@ def generate(rng, tier):
                 tree[rel] = {"t": "f", "c": gen.unique_content(rng)}
     env["tree"] = tree
     nested = []
-    cand = [d for d in gen.tree_dirs(tree) if not any(seg in ("cache", "skipdir", "thumbs") for seg in d.split("/"))]
+    cand = [d for d in gen.tree_dirs(tree) if not any(seg in ("cache", "skipdir", "thumbs", "T") for seg in d.split("/"))]
     if cand and rng.random() < 0.5:
         nested = rng.sample(cand, min(len(cand), rng.randint(1, 2)))
     ops = []
@@ -262,7 +272,14 @@ def _fault_phase(ctx, w, op):
             # add a new file that matches a pattern
             pat = nondefault[(r >> 8) % len(nondefault)]
             name = None
-            if pat.endswith("/"):
+            if "/" in pat.rstrip("/"):
+                # anchored at the root: the new file has to sit exactly where the pattern points
+                body = pat.strip("/")
+                if pat.endswith("/"):
+                    name = body + "/added_%d.bin" % (r % 97)
+                elif body.count("*") == 1 and "*" in body.split("/")[-1] and "?" not in body:
+                    name = body.replace("*", "added_%d" % (r % 97))
+            elif pat.endswith("/"):
                 name = pat + "added_%d.bin" % (r % 97)
             elif pat.startswith("*."):
                 name = "added_%d%s" % (r % 97, pat[1:])
